@@ -267,8 +267,9 @@ def run_case(ctx, case):
                                 if any(e != got for e in entries):
                                     ctx.violation('identity|' + key, 'identities differ between requests of one connection: %r' % (entries,), detail)
                                 got_n = (got[0], got[1]) if got is not None else None
-                                if got_n is None or got_n[0] != ident[0] or (got_n[1] or None) != (ident[1] or None) and \
-                                        not (got_n[1] == ident[1]):
+                                # exactly: an empty group list (the directory knows the user, in no group) is not the absence
+                                # of group information - the access decision treats the two differently
+                                if got_n is None or got_n[0] != ident[0] or got_n[1] != ident[1]:
                                     ctx.violation('identity|' + key, 'process_request received identity %r, established %r'
                                                   % (got, ident), detail)
                             elif not entries:
